@@ -85,12 +85,41 @@ def run(ops):
                 nc.is_perfect_consonant(False), nc.is_imperfect_consonant(), nc.is_dissonant(False), nc.is_dissonant(True)])
     return out
 
+def run2(ops):
+    """one container and OTHER containers that stay alive: whatever is done to one must not show in another"""
+    nc, others, out = NoteContainer(), [], []
+    for op in ops:
+        try:
+            t = op[0]
+            if t == "make_other":
+                others.append(NoteContainer([to_py(i) for i in op[1]]))
+            elif t == "add_other":
+                nc.add_notes(others[op[1]])
+            elif t == "plus_other":
+                nc = nc + others[op[1]]
+            elif t == "add":
+                it = op[1]
+                nc.add_note(it[1], it[2]) if it[0] == "named" else nc.add_note(to_py(it))
+            elif t == "remove_name":
+                nc.remove_note(op[1])
+            elif t == "other_add":
+                it = op[2]
+                others[op[1]].add_note(it[1], it[2]) if it[0] == "named" else others[op[1]].add_note(to_py(it))
+            elif t == "other_remove_name":
+                others[op[1]].remove_note(op[2])
+            out.append([state(nc), [state(o) for o in others]])
+        except Exception as e:
+            from tools.framework import err_of
+            out.append(err_of(e))
+    return out
+
 def from_progression(sh, key):
     r = NoteContainer().from_progression_shorthand(sh, key)
     return False if r is False else state(r)
 
 IMPL = {
     "nc.run": run,
+    "nc.run2": run2,
     "nc.from_chord": lambda sh: state(NoteContainer().from_chord_shorthand(sh)),
     "nc.from_interval": lambda nm, o, sh, up: state(NoteContainer().from_interval_shorthand(Note(nm, o), sh, up)),
     "nc.from_progression": from_progression,
@@ -143,6 +172,34 @@ def cases(tier, rng):
             yield Case("nc.run", [list(seq)], "history/depth%d" % d, kind=("run",))
     for _ in range(300 if tier == "quick" else 3000):
         yield Case("nc.run", [[rand_op(rng) for _ in range(rng.randint(5, 40))]], "history/random", kind=("run",))
+    # containers that live on next to the one operated on
+    def rand_op2(n_others):
+        k = rng.random()
+        if n_others == 0 or k < 0.2:
+            return ["make_other", [rand_item(rng) for _ in range(rng.randint(0, 3))]]
+        j = rng.randrange(n_others)
+        if k < 0.45:
+            return [rng.choice(["add_other", "plus_other"]), j]
+        if k < 0.6:
+            return ["add", rand_item(rng)]
+        if k < 0.7:
+            return ["remove_name", rng.choice(LETTERS)]
+        if k < 0.9:
+            return ["other_add", j, rand_item(rng)]
+        return ["other_remove_name", j, rng.choice(LETTERS)]
+    fixed2 = [[["make_other", [["obj", "C", 4], ["obj", "E", 4]]], ["add_other", 0], ["add", ["obj", "B", 6]], ["remove_name", "B"], ["add_other", 0]],
+              [["make_other", [["obj", "C", 4]]], ["plus_other", 0], ["other_add", 0, ["obj", "G", 5]], ["add", ["bare", "D"]]],
+              [["make_other", []], ["add_other", 0], ["add", ["obj", "A", 3]], ["other_add", 0, ["obj", "F", 2]]]]
+    for ops in fixed2:
+        yield Case("nc.run2", [ops], "others/fixed", kind=("run2",))
+    for _ in range(200 if tier == "quick" else 2000):
+        ops, n = [], 0
+        for _ in range(rng.randint(3, 14)):
+            op = rand_op2(n)
+            if op[0] == "make_other":
+                n += 1
+            ops.append(op)
+        yield Case("nc.run2", [ops], "others/random", kind=("run2",))
     roots = [l + a for l in LETTERS for a in ("", "#", "b")]
     for k in FORMULA:
         for r in roots:
@@ -281,6 +338,43 @@ def oracle(c, obs):
                 pairwise(names_in_order, perf(True)), pairwise(names_in_order, perf(False)), pairwise(names_in_order, imp),
                 not pairwise(names_in_order, cons(True)), not pairwise(names_in_order, cons(False))]
         return None if summ == want else "length / names / consonance predicates disagree with the content"
+    if kind[0] == "run2":
+        if isinstance(obs, Err):
+            return "history raised"
+        nc, others = [], []
+        for op, st in zip(c["args"][0], obs):
+            t = op[0]
+            try:
+                if t == "make_other":
+                    o = []
+                    for it in op[1]:
+                        o = spec_add(o, it)
+                    others = others + [o]
+                elif t in ("add_other", "plus_other"):
+                    for n, q in others[op[1]]:
+                        nc = spec_add(nc, ["obj", n, q])
+                elif t == "add":
+                    nc = spec_add(nc, op[1])
+                elif t == "remove_name":
+                    nc = [x for x in nc if x[0] != op[1]]
+                elif t == "other_add":
+                    others = others[:op[1]] + [spec_add(others[op[1]], op[2])] + others[op[1] + 1:]
+                elif t == "other_remove_name":
+                    others = others[:op[1]] + [[x for x in others[op[1]] if x[0] != op[2]]] + others[op[1] + 1:]
+            except IndexError:
+                continue
+            if isinstance(st, Err):
+                return "operation %s raised %s" % (t, st.name)
+            # bare-name voicing on B#/Cb-type names is the recorded finding's business: resynchronise on what the code did
+            if [sorted(pitch(n, q) for n, q in st[0])] + [sorted(pitch(n, q) for n, q in o) for o in st[1]] != \
+               [sorted(pitch(n, q) for n, q in nc)] + [sorted(pitch(n, q) for n, q in o) for o in others]:
+                involved = [it for it in ([op[1]] if t == "add" else [op[2]] if t == "other_add" else op[1] if t == "make_other" else []) if it[0] == "bare"]
+                if involved:
+                    nc, others = st[0], st[1]
+                    continue
+                return "after %s the containers are not what independent sets predict (one container changed through another?)" % t
+            nc, others = st[0], st[1]
+        return None
     if kind[0] == "chord":
         _, r, k = kind
         want_names = spec_notes_of(r, k)
